@@ -2487,7 +2487,8 @@ class SSHConnection(SSHPacketHandler, asyncio.Protocol):
         self.logger.debug1('Completed key exchange')
 
     def _process_userauth_request(self, _pkttype: int, _pktid: int,
-                                  packet: SSHPacket) -> None:
+                                  packet: SSHPacket) -> \
+            Optional[Awaitable[None]]:
         """Process a user authentication request"""
 
         username_bytes = packet.get_string()
@@ -2513,6 +2514,11 @@ class SSHConnection(SSHPacketHandler, asyncio.Protocol):
             if self._auth_final:
                 raise ProtocolError('Unexpected userauth request')
         else:
+            # A new request aborts any auth still in progress
+            if self._auth:
+                self._auth.cancel()
+                self._auth = None
+
             if username != self._username:
                 self.logger.info('Beginning auth for user %s', username)
 
@@ -2521,7 +2527,10 @@ class SSHConnection(SSHPacketHandler, asyncio.Protocol):
             else:
                 begin_auth = False
 
-            self.create_task(self._finish_userauth(begin_auth, method, packet))
+            # Finish processing this request before parsing later packets
+            return self._finish_userauth(begin_auth, method, packet)
+
+        return None
 
     async def _finish_userauth(self, begin_auth: bool, method: bytes,
                                packet: SSHPacket) -> None:
